@@ -66,6 +66,15 @@ func runC18(c *Ctx) {
 		}, nil, 20)
 	})
 
+	c.rule("C18.R10", "the peer ranking is the dispatcher's own: the stock peerRanking is a plain map without a lock, and every method of it is called from the workDispatcher goroutine only (the worker goroutines report through the results channel); a reset of a disconnected peer's rank made from the goroutine that ran the worker writes that map while the dispatcher sorts by it", func() {
+		c.ownedBy(c.field("query", "peerRanking", "rank"), "(*query.peerWorkManager).workDispatcher", map[string]string{
+			"query.NewPeerRanking":     "constructor",
+			"neutrino.NewChainService": "makes the ranking before the work manager is started",
+		}, 8)
+	})
+	c.rule("C18.R9", waitGroupGrowthDoc, func() { c.waitGroupGrowth(4) })
+	c.rule("C18.R8", selfConcurrentDoc, func() { c.selfConcurrent(1) })
+
 	c.rule("C18.R1", "goroutine ownership: the block manager's header-sync state is touched only from the blockHandler goroutine (and pre-start functions); the peer state and subscriber lists only from peerHandler; the subscription registry only from subscriptionHandler", func() {
 		const bh = "(*neutrino.blockManager).blockHandler"
 		allowedBM := map[string]string{
